@@ -668,6 +668,14 @@ impl Expression {
                 };
                 if next == '\\' {
                     let next = ps.next()?;
+                    // (a backslash before a line terminator continues the line: nothing is added)
+                    if next == '\r' && ps.peek::<0>() == Some('\n') {
+                        ps.next();
+                        continue;
+                    }
+                    if matches!(next, '\r' | '\n' | '\u{2028}' | '\u{2029}') {
+                        continue;
+                    }
                     let ch = match next {
                         'r' => '\r',
                         'n' => '\n',
